@@ -22,7 +22,7 @@ Lens(a, b, c, d) == (0 :> a) @@ (1 :> b) @@ (2 :> c) @@ (3 :> d)
 L3443 == Lens(3, 4, 4, 3)
 L2222 == Lens(2, 2, 2, 2)
 L333 == (0 :> 3) @@ (1 :> 3) @@ (2 :> 3)
-L4555 == Lens(4, 5, 5, 5)
+L4454 == Lens(4, 4, 5, 4)
 L3333 == Lens(3, 3, 3, 3)
 L444 == (0 :> 4) @@ (1 :> 4) @@ (2 :> 4)
 
